@@ -1,8 +1,8 @@
 package props
 
 import (
-	"sort"
 	"fmt"
+	"sort"
 
 	kcp "github.com/xtaci/kcp-go/v5"
 	"pgregory.net/rapid"
